@@ -174,6 +174,10 @@ pub fn reg_event(uid: Uid, call: RegCall, ok: bool, injected: bool) {
                 (_, RegCall::Register) => "register-out-of-context",
             };
             w.alarm("C09.foreign_action", culprit, format!("{:?} called on source #{} while the registration context is {:?}", call, uid, ctx));
+            if call == RegCall::Unregister && w.srcs[uid].st == St::Enabled {
+                // somebody else's disable reached this source
+                w.alarm("C07.others_undisturbed", "enabled-source-unregistered-without-request", format!("source #{} was unregistered although nobody disabled or removed it (context {:?})", uid, ctx));
+            }
         }
         if !ok {
             w.had_reg_failure = true;
@@ -189,6 +193,11 @@ pub fn reg_event(uid: Uid, call: RegCall, ok: bool, injected: bool) {
         let s = &mut w.srcs[uid];
         s.reg_calls[call as usize] += 1;
         s.reg_window.push((call, ok));
+        match call {
+            RegCall::Register | RegCall::Reregister if ok => s.registered = true,
+            RegCall::Unregister => s.registered = false,
+            _ => {}
+        }
         if ok {
             match call {
                 RegCall::Register | RegCall::Reregister => {
